@@ -4,6 +4,7 @@ import (
 	"bytes"
 	"fmt"
 	"io"
+	"sort"
 	"sync"
 	"time"
 
@@ -36,6 +37,34 @@ func init() {
 	})
 }
 
+func init() {
+	for _, proto := range []string{"ws", "wsp"} {
+		proto := proto
+		name := map[string]string{"ws": "ws-rtsp", "wsp": "wsp"}[proto]
+		Register(&Def{
+			Prop: "C12", Name: name, Level: "exploration",
+			Build:        func(tier string) sim.Scenario { return buildC12On(tier, proto) },
+			Cfg:          sim.RunConfig{Grace: 2 * time.Minute, Horizon: time.Hour, StepCap: 300000},
+			RunsQuick:    2500,
+			RunsThorough: 200000,
+			Real: map[string][]string{
+				"ws":  {"service.onWebSocketRequest + websocket.TryUpgrade", "service/rtsp Session over a WebSocket (same state machine as TCP, ws path binding, wsconn write branches)", "network/websocket", "media registry and streams"},
+				"wsp": {"service.onWebSocketRequest + websocket.TryUpgrade", "service/wsp Server (INIT/JOIN channel registry), Session (process, onRequest, onPreprocess, onDescribe/Setup/Play/Pause, Consume)", "service/wsp protocol codec", "network/websocket", "media registry and streams"},
+			}[proto],
+			Stub: []string{"TCP (sim.Conn) under the harness HTTP loop; WebSocket client = gorilla over sim.Conn", "the publisher of /live/a is a harness task"},
+			Rule: "as C12/rtsp-tcp, with every request one WebSocket message (WSP: one WRAP message on the control channel, frames on the data channel); a disconnect is the close of the WebSocket(s) between two requests. " +
+				"WSP has no record side: ANNOUNCE must be refused and RECORD must be 455 in every state; SETUP must be interleaved TCP. distinct = event-log hash; non-trivial = pre-emption or injected disconnect",
+			Assumptions: []string{
+				"only outcomes the statement fixes are demanded (must-2xx / must-455 / must-not-2xx per (state, method)); PAUSE, GET_PARAMETER and unknown methods may get any status but exactly one response and no change of role, transport or binding",
+			},
+			RequiredProbes: map[string][]string{
+				"ws":  {"c12.reached-playing", "c12.reached-recording", "c12.illegal-455", "c12.teardown", "c12.refused-setup-then-play"},
+				"wsp": {"c12.reached-playing", "c12.illegal-455", "c12.teardown", "c12.refused-setup-then-play"},
+			}[proto],
+		})
+	}
+}
+
 type c12Req struct {
 	method string
 	path   string
@@ -45,18 +74,22 @@ type c12Req struct {
 	body   string
 	ctype  string
 	tag    string
+	ch     int // requested RTP channel (interleaved transports)
 }
 
 const c12Live = "/live/a"
 const c12Push = "/push/x"
 
-func buildC12(tier string) sim.Scenario {
+func buildC12(tier string) sim.Scenario { return buildC12On(tier, "") }
+
+func buildC12On(tier string, proto string) sim.Scenario {
 	var sw *svcWorld
 	var cl *rtspClient
 	var pubs []*rtp.Packet
 	var stream *media.Stream
 	var ended bool
 	var wasPlayingUDP bool
+	var finalChans map[int]bool
 	pubStop := make(chan struct{})
 
 	main := func(w *sim.World) {
@@ -81,6 +114,10 @@ func buildC12(tier string) sim.Scenario {
 		case 1:
 			script = append(script, c12Req{method: "DESCRIBE", path: c12Live}, c12Req{method: "SETUP", path: c12Live, track: "streamid=0", trans: fmt.Sprintf(transports[0].s, 0, 1), tkind: "tcp"})
 		case 2:
+			if proto == "wsp" { // no record side: a second play prefix instead
+				script = append(script, c12Req{method: "DESCRIBE", path: c12Live}, c12Req{method: "SETUP", path: c12Live, track: "streamid=1", trans: fmt.Sprintf(transports[0].s, 2, 3), tkind: "tcp", ch: 2})
+				break
+			}
 			script = append(script, c12Req{method: "ANNOUNCE", path: c12Push, body: sdpH264AAC, ctype: "application/sdp"},
 				c12Req{method: "SETUP", path: c12Push, track: "streamid=0", trans: fmt.Sprintf(transports[1].s, 0, 1), tkind: "tcprec"})
 		}
@@ -91,6 +128,9 @@ func buildC12(tier string) sim.Scenario {
 				r = c12Req{method: "OPTIONS", path: c12Live}
 			case k <= 2:
 				r = c12Req{method: "DESCRIBE", path: []string{c12Live, c12Live, "/nope"}[tp.Choose(3)]}
+				if proto != "" { // the WebSocket path names the stream, the request URL does not
+					r.path = c12Live
+				}
 			case k == 3:
 				r = c12Req{method: "ANNOUNCE", path: c12Push, body: sdpH264AAC, ctype: "application/sdp"}
 				switch tp.Choose(5) {
@@ -106,6 +146,9 @@ func buildC12(tier string) sim.Scenario {
 				if track == "streamid=1" {
 					lo = 2
 				}
+				if tp.OneIn(3) {
+					lo += 4 // other channel numbers: a refused SETUP must not change the negotiated ones
+				}
 				s := tr.s
 				if tr.kind == "tcp" || tr.kind == "tcprec" || tr.kind == "udp" {
 					s = fmt.Sprintf(tr.s, lo, lo+1)
@@ -114,7 +157,7 @@ func buildC12(tier string) sim.Scenario {
 				if tp.OneIn(3) {
 					path = c12Push
 				}
-				r = c12Req{method: "SETUP", path: path, track: track, trans: s, tkind: tr.kind}
+				r = c12Req{method: "SETUP", path: path, track: track, trans: s, tkind: tr.kind, ch: lo}
 			case k <= 8:
 				r = c12Req{method: "PLAY", path: c12Live}
 			case k == 9:
@@ -172,8 +215,23 @@ func buildC12(tier string) sim.Scenario {
 			}
 		})
 
-		cl = sw.rtspConnect("cli", 256<<10)
-		if chunked {
+		switch proto {
+		case "":
+			cl = sw.rtspConnect("cli", 256<<10)
+		case "ws":
+			var err error
+			if cl, err = sw.wsRTSPConnect("cli", c12Live); err != nil {
+				w.Fail("C12/harness", "ws-rtsp upgrade: %v", err)
+				return
+			}
+		case "wsp":
+			var err error
+			if cl, err = sw.wspConnect("cli", c12Live); err != nil {
+				w.Fail("C12/harness", "WSP channels: %v", err)
+				return
+			}
+		}
+		if chunked && proto == "" {
 			sw.conns[len(sw.conns)-1].Chunked = true // server side reads in tape-chosen chunks
 			w.Fault("chunked-delivery")
 		}
@@ -186,12 +244,45 @@ func buildC12(tier string) sim.Scenario {
 		playOK := false
 		sessionID := ""
 		framesAtPlay := -1
+		chans := map[string]int{} // track -> RTP channel of the last successful interleaved SETUP
+		refusedSetup := false
+		paused := false // a PAUSE answered 2xx in the playing state may suspend delivery until the next PLAY
 
 		expect := func(r c12Req) string { // must2xx must455 must404 not2xx any
 			switch r.method {
 			case "OPTIONS", "TEARDOWN":
 				return "must2xx"
 			case "PAUSE", "GET_PARAMETER", "FOOBAR":
+				return "any"
+			}
+			if proto == "wsp" { // play-only protocol
+				switch r.method {
+				case "RECORD":
+					return "must455"
+				case "ANNOUNCE":
+					return "not2xx"
+				case "PLAY":
+					if state == "ready" || state == "playing" {
+						return "must2xx"
+					}
+					return "must455"
+				case "DESCRIBE":
+					switch state {
+					case "init":
+						return "must2xx"
+					case "playing":
+						return "must455"
+					}
+					return "any"
+				case "SETUP":
+					if state == "playing" {
+						return "must455"
+					}
+					if !described || r.track == "streamid=9" || r.tkind != "tcp" {
+						return "not2xx"
+					}
+					return "must2xx"
+				}
 				return "any"
 			}
 			switch state {
@@ -280,9 +371,16 @@ func buildC12(tier string) sim.Scenario {
 		apply := func(r c12Req, status int) {
 			ok := status >= 200 && status < 300
 			if !ok {
+				if r.method == "SETUP" && (state == "init" || state == "ready") && (described || announced) && (r.tkind == "tcp" || r.tkind == "tcprec") {
+					refusedSetup = true
+				}
 				return
 			}
 			switch r.method {
+			case "PAUSE":
+				if state == "playing" {
+					paused = true
+				}
 			case "DESCRIBE":
 				if state == "init" {
 					described, mode = true, "play"
@@ -294,6 +392,9 @@ func buildC12(tier string) sim.Scenario {
 			case "SETUP":
 				if state == "init" || state == "ready" {
 					state = "ready"
+					if r.tkind == "tcp" || r.tkind == "tcprec" {
+						chans[r.track] = r.ch
+					}
 					if setupKind == "" {
 						setupKind = r.tkind
 					} else if setupKind != r.tkind {
@@ -301,9 +402,13 @@ func buildC12(tier string) sim.Scenario {
 					}
 				}
 			case "PLAY":
+				paused = false
 				if state == "ready" {
 					state = "playing"
 					w.Probe("c12.reached-playing")
+					if refusedSetup {
+						w.Probe("c12.refused-setup-then-play")
+					}
 					if setupKind == "udp" {
 						wasPlayingUDP = true
 					}
@@ -381,15 +486,16 @@ func buildC12(tier string) sim.Scenario {
 			}
 			if r.method == "PLAY" && ok2 && !playOK {
 				playOK = true
-				framesAtPlay = len(cl.frames)
+				framesAtPlay = cl.nframes()
 			}
 			apply(r, m.Status)
 			// R3 / R4
-			if !playOK && len(cl.frames) > 0 {
-				w.Fail("C12/media-before-play", "%d interleaved frame(s) arrived before any successful PLAY", len(cl.frames))
+			if !playOK && cl.nframes() > 0 {
+				w.Fail("C12/media-before-play", "%d interleaved frame(s) arrived before any successful PLAY", cl.nframes())
 				return false
 			}
-			if playOK && framesAtPlay > 0 {
+			// (WSP: frames travel on another connection than the PLAY response, no order between them)
+			if playOK && framesAtPlay > 0 && proto != "wsp" {
 				w.Fail("C12/media-before-play", "%d interleaved frame(s) arrived before the PLAY response", framesAtPlay)
 				return false
 			}
@@ -405,6 +511,10 @@ func buildC12(tier string) sim.Scenario {
 		for i < len(script) && !w.Failed() {
 			r := script[i]
 			if i == cutAt {
+				if proto != "" {
+					w.Fault("disconnect-between-requests")
+					break
+				}
 				_, raw := cl.request(r.method, url(r), hdr(r), r.body)
 				k := w.Tape.Choose(len(raw))
 				cl.c.Write(raw[:k])
@@ -418,17 +528,24 @@ func buildC12(tier string) sim.Scenario {
 			if i+batch > len(script) {
 				batch = len(script) - i
 			}
+			if proto != "" { // a WebSocket message sent after the server closed on TEARDOWN fails at the sender: end the batch there
+				for k := 0; k < batch; k++ {
+					if script[i+k].method == "TEARDOWN" {
+						batch = k + 1
+					}
+				}
+			}
 			var cseqs []int
-			var wire []byte
+			var wire [][]byte
 			for k := 0; k < batch; k++ {
 				c, raw := cl.request(script[i+k].method, url(script[i+k]), hdr(script[i+k]), script[i+k].body)
 				cseqs = append(cseqs, c)
-				wire = append(wire, raw...)
+				wire = append(wire, raw)
 			}
 			if batch > 1 {
 				w.Fault("pipelined-requests")
 			}
-			if _, err := cl.c.Write(wire); err != nil {
+			if err := cl.send(wire...); err != nil {
 				w.Fail("C12/connection-unusable", "write of request %d (%s) failed: %v", i, r.method, err)
 				return
 			}
@@ -472,18 +589,33 @@ func buildC12(tier string) sim.Scenario {
 				var b bytes.Buffer
 				pk := mkRTP(rtp.ChannelVideo, 96, uint16(k), uint32(k)*3000, true, nalH264(5, k, 30))
 				pk.Write(&b, []int{0, 1, 2, 3})
-				cl.c.Write(b.Bytes())
+				cl.send(b.Bytes())
 			}
 		}
-		if state == "playing" && setupKind == "tcp" {
-			cl.drain(2 * time.Second)
-			if len(cl.frames) == 0 {
+		if state == "playing" && setupKind == "tcp" && !paused {
+			if proto == "wsp" {
+				w.Sleep(2 * time.Second)
+			} else {
+				cl.drain(2 * time.Second)
+			}
+			if cl.nframes() == 0 {
 				w.Fail("C12/no-media-after-play", "PLAY succeeded (interleaved) but no frame arrived within 2 simulated seconds while the publisher was sending")
 				return
 			}
 		}
 		// end of the session: disconnect (or the server closed after TEARDOWN)
-		cl.c.Close()
+		cl.close()
+		if cl.rdErr != nil && proto == "wsp" {
+			w.Fail("C12/bad-response", "%v", cl.rdErr)
+			return
+		}
+		finalChans = nil
+		if setupKind == "tcp" && mode == "play" {
+			finalChans = map[int]bool{}
+			for _, c := range chans {
+				finalChans[c] = true
+			}
+		}
 		ended = true
 		close(pubStop)
 		pwg.Wait()
@@ -504,6 +636,10 @@ func buildC12(tier string) sim.Scenario {
 				w.Fail("C12/frame-not-published", "an interleaved frame (channel %d, %d bytes) does not equal any published packet", f.Channel, len(f.Payload))
 				break
 			}
+			if finalChans != nil && !finalChans[f.Channel] {
+				w.Fail("C12/transport-changed", "an interleaved frame arrived on channel %d, which no successful SETUP negotiated (negotiated RTP channels: %v): a refused SETUP changed the session's transport", f.Channel, sortedKeys(finalChans))
+				break
+			}
 		}
 		// R7 release
 		if media.Get(c12Push) != nil {
@@ -512,8 +648,8 @@ func buildC12(tier string) sim.Scenario {
 		if n := stream.ConsumerCount(); n != 0 {
 			w.Fail("C12/not-released", "%s still has %d consumer(s) after the connection ended", c12Live, n)
 		}
-		if d := sw.activeDelta(); d[0] != 0 {
-			w.Fail("C12/not-released", "active RTSP connection counter is off by %d after the connection ended", d[0])
+		if d := sw.activeDelta(); d[0] != 0 || d[2] != 0 {
+			w.Fail("C12/not-released", "active connection counters are off by %d (RTSP) / %d (WSP) after the connection ended", d[0], d[2])
 		}
 		if simnet.Open != 0 {
 			w.Fail("C12/not-released", "%d UDP socket(s) still open after the connection ended (udp play=%v)", simnet.Open, wasPlayingUDP)
@@ -534,4 +670,13 @@ func buildC12(tier string) sim.Scenario {
 		sw.teardown()
 	}
 	return sim.Scenario{Main: main, Final: final, Cleanup: cleanup}
+}
+
+func sortedKeys(m map[int]bool) []int {
+	var ks []int
+	for k := range m {
+		ks = append(ks, k)
+	}
+	sort.Ints(ks)
+	return ks
 }
